@@ -229,12 +229,69 @@ R15_6_NAN = {
     'bitrate_reservoir_bias': 'NaN bias: desired_fill=(long)(bits*NaN) is an out-of-range conversion (undefined in ISO C; LONG_MIN on '
                               'x86-64); it is only compared with fill levels, never used as an index or size (reported by an independent '
                               'agent under UBSan as signed-overflow reports in bitrate.c, no memory error)',
-    'lowpass_kHz': 'NaN lowpass: neither clamp fires; vorbis_encode_residue_setup computes freq>nyq? comparisons false, (int)(NaN) is '
-                   'undefined in ISO C (INT_MIN on x86-64, the product with the grouping wraps to 0) and `if(r->end==0)r->end=r->grouping` '
-                   'takes over; findings/replay_nan_control_values.c encodes 48 packets without a memory error (UBSan reports the '
-                   'conversion and the overflow)',
     'impulse_noisetune': 'NaN noise tune: added to the noise bias tables (floats); no index or size derives from it',
 }
+
+
+# fields whose value is converted to an integer that bounds an index range: a NaN must not survive the request
+R15_6_NAN_MUST = {
+    'lowpass_kHz': 'vorbis_encode_residue_setup converts it to an int that becomes the residue end; with residue groupings that '
+                   'are not powers of two (the 5.1 templates) the converted NaN stays INT_MIN and the encoder calls memset with a '
+                   'negative size (findings/replay_encode_setup_misuse.c 2 6)',
+}
+
+
+def _nan_free_at_returns(F, store, fld):
+    """path check over the CFG: after `store` (a caller-supplied floating value into field fld) the field is NaN-free at every
+    return that follows: established by a constant store to the field or by the edge of an ordered comparison on the field
+    that can only be taken by a non-NaN value.  -> list of returns reached while the field may still hold a NaN"""
+    ltxt = F.s(F.strip_casts(F.ex[store]['c'][0]))
+
+    def cmp_edge(cond):
+        """polarity of the edge on which the field is known to be a number, or None"""
+        nd = F.ex[F.strip_casts(cond)]
+        neg = False
+        while nd['k'] == 'un' and nd['op'] == '!':
+            neg = not neg
+            nd = F.ex[F.strip_casts(nd['c'][0])]
+        if nd['k'] == 'bin' and nd['op'] in ('<', '<=', '>', '>=', '=='):
+            if ltxt in (F.s(F.strip_casts(nd['c'][0])), F.s(F.strip_casts(nd['c'][1]))):
+                return not neg
+        if nd['k'] == 'bin' and nd['op'] == '!=':
+            if ltxt in (F.s(F.strip_casts(nd['c'][0])), F.s(F.strip_casts(nd['c'][1]))):
+                return neg
+        return None
+    b0, i0 = F.pos[store]
+    bad = []
+    seen = set()
+    st = [(b0, i0 + 1)]
+    while st:
+        b, i = st.pop()
+        if (b, i) in seen:
+            continue
+        seen.add((b, i))
+        blk = F.blocks[b]
+        clean = False
+        for e in blk['elems'][i:]:
+            nd = F.ex[e]
+            if nd['k'] == 'assign' and nd['op'] == '=' and F.s(F.strip_casts(nd['c'][0])) == ltxt:
+                if common.const_val(F, nd['c'][1]) is not None or F.ex[F.strip_casts(nd['c'][1])]['k'] == 'flt':
+                    clean = True
+                    break
+            if nd['k'] == 'ret':
+                bad.append(e)
+        if clean:
+            continue
+        t = blk.get('term') or {}
+        c = t.get('cond')
+        pol = cmp_edge(c) if c is not None and len(blk['succs']) == 2 else None
+        for si, s_ in enumerate(blk['succs']):
+            if s_ is None:
+                continue
+            if pol is not None and (si == 0) == pol:
+                continue            # this edge is taken by numbers only
+            st.append((s_, 0))
+    return bad
 
 
 def r15_6(chk, P):
@@ -282,6 +339,13 @@ def r15_6(chk, P):
         chk.ob('R15.6', F.name, f'store:{fld}#{i}', ok, F.where(e), how)
         if fld in R15_6_NAN and i == 0:
             chk.assumed('R15.6', F.name, f'nan:{fld}', F.where(e), R15_6_NAN[fld])
+        if fld in R15_6_NAN_MUST and common.const_val(F, F.ex[e]['c'][1]) is None and F.ex[F.strip_casts(F.ex[e]['c'][1])]['k'] != 'flt':
+            badr = _nan_free_at_returns(F, e, fld)
+            chk.ob('R15.6', F.name, f'nan-rejected:{fld}#{i}', not badr, F.where(e),
+                   'every path from the store to a return passes a constant store to the field or an ordered comparison on it that '
+                   'only a number satisfies' if not badr else
+                   f'a NaN from the caller survives to the return on line {F.loc(badr[0])}: neither `x<lo` nor `x>hi` is true for a '
+                   f'NaN, so neither clamp fires.  {R15_6_NAN_MUST[fld]}')
 
 
 def r15_8(chk, P):
